@@ -326,6 +326,7 @@ class Peg(object):
     def __init__(self, lang, grammar, classes):
         self.L = lang
         self.g = grammar
+        self.verify_langs = {}      # id(verify node) -> DFA of the texts its predicate accepts (engine/verifyre.py)
         self.classes = classes      # name -> set of class indices: 'digit', 'space', ('lit', ch) -> {idx}, closure key -> set
         self.memo = {}
 
@@ -452,7 +453,15 @@ class Peg(object):
         if k in ("map", "try_map", "context", "take", "value", "void", "cut_err"):
             return self.den(p.args[0])
         if k == "verify":
-            raise Inconclusive("verify() is not regular-transparent")
+            # M' = { u#v in M : pred(u) },  F' = F  u  { uv : u#v in M, not pred(u) }   with pred regular (verifyre.py)
+            R = self.verify_langs.get(id(p))
+            if R is None:
+                raise Inconclusive("verify() is not regular-transparent")
+            M, F = self.den(p.args[0])
+            tail = L.concat(L.mark(), L.sigma_star())
+            Mok = inter(M, L.concat(R, tail))
+            Mbad = inter(M, L.concat(diff(L.sigma_star(), R), tail))
+            return Mok, union(F, L.erase_marker(Mbad))
         if k == "lit":
             return self.lit(p.extra)
         if k == "prim":
@@ -684,7 +693,107 @@ def eval_peg(g, classes, p, w, i):
             if e is None or e == j:
                 return None
             j = e
+    if k == "verify":
+        j = eval_peg(g, classes, p.args[0], w, i)
+        if j is None:
+            return None
+        h = VERIFY_HOOK[0]
+        if h is None:
+            raise Inconclusive("direct evaluator: combinator verify (no concrete text at hand)")
+        return j if h(p, i, j, w) else None
     raise Inconclusive("direct evaluator: combinator %s" % k)
+
+
+# verify(pred): a predicate on the matched text. Not regular in general; the word-level evaluator can decide it when the
+# caller has the concrete text of the word (hook: (parser node, from, to, word) -> bool; c05.build answers from the predicate's regular language, entrytext.py by interpreting the predicate on the text)
+VERIFY_HOOK = [None]
+
+
+def eval_peg_trace(g, classes, p, w, i, watch):
+    """eval_peg that also reports which watched nodes matched which part of the word on the *successful* path:
+    returns None or (new position, ((id(node), from, to), …))."""
+    k = p.kind
+    if id(p) in watch:
+        inner = P_inner(p)
+        r = eval_peg_trace(g, classes, inner, w, i, watch) if inner is not None else None
+        if r is None:
+            return None
+        return r[0], r[1] + ((id(p), i, r[0]),)
+    if k in ("map", "try_map", "context", "take", "value", "void", "cut_err"):
+        return eval_peg_trace(g, classes, p.args[0], w, i, watch)
+    if k in ("lit", "prim", "take_while"):
+        j = eval_peg(g, classes, p, w, i)
+        return None if j is None else (j, ())
+    if k == "ref":
+        return eval_peg_trace(g, classes, g[p.extra], w, i, watch)
+    if k in ("seq", "preceded", "terminated", "delimited"):
+        j, ev = i, ()
+        for a in p.args:
+            r = eval_peg_trace(g, classes, a, w, j, watch)
+            if r is None:
+                return None
+            j, ev = r[0], ev + r[1]
+        return j, ev
+    if k in ("alt", "paths"):
+        for a in p.args:
+            r = eval_peg_trace(g, classes, a, w, i, watch)
+            if r is not None:
+                return r
+        return None
+    if k == "opt":
+        r = eval_peg_trace(g, classes, p.args[0], w, i, watch)
+        return (i, ()) if r is None else r
+    if k == "peek":
+        return (i, ()) if eval_peg(g, classes, p.args[0], w, i) is not None else None
+    if k == "not":
+        return (i, ()) if eval_peg(g, classes, p.args[0], w, i) is None else None
+    if k == "separated":
+        lo = p.extra[0]
+        r = eval_peg_trace(g, classes, p.args[0], w, i, watch)
+        if r is None:
+            return (i, ()) if lo == 0 else None
+        j, ev = r
+        while True:
+            s_ = eval_peg_trace(g, classes, p.args[1], w, j, watch)
+            if s_ is None:
+                return j, ev
+            e = eval_peg_trace(g, classes, p.args[0], w, s_[0], watch)
+            if e is None:
+                return j, ev
+            j, ev = e[0], ev + s_[1] + e[1]
+    if k == "repeat":
+        lo = p.extra[0]
+        j, ev, n = i, (), 0
+        while True:
+            e = eval_peg_trace(g, classes, p.args[0], w, j, watch)
+            if e is None or e[0] == j:
+                break
+            j, ev = e[0], ev + e[1]
+            n += 1
+        return (j, ev) if n >= lo else None
+    if k == "repeat_till":
+        j, ev = i, ()
+        while True:
+            t = eval_peg_trace(g, classes, p.args[1], w, j, watch)
+            if t is not None:
+                return t[0], ev + t[1]
+            e = eval_peg_trace(g, classes, p.args[0], w, j, watch)
+            if e is None or e[0] == j:
+                return None
+            j, ev = e[0], ev + e[1]
+    if k == "verify":
+        r = eval_peg_trace(g, classes, p.args[0], w, i, watch)
+        if r is None:
+            return None
+        h = VERIFY_HOOK[0]
+        if h is None:
+            raise Inconclusive("direct evaluator: combinator verify (no concrete text at hand)")
+        return r if h(p, i, r[0], w) else None
+    raise Inconclusive("direct evaluator: combinator %s" % k)
+
+
+def P_inner(p):
+    return p.args[0] if p.args else None
 
 
 def dfa_accepts(d, w):
